@@ -7,3 +7,9 @@ Definition c03_point_is_on_curve := point_is_on_curve.
 Definition c03_privkey_int := privkey_int.
 Definition c03_compute_point := compute_point.
 Definition c03_key_of_draw := key_of_draw.
+
+(* keys.pub(privkey, compressed): compute_point then SEC1-encode *)
+Require Import Bits.Model.Sec1.
+Definition c03_pub (p a n : BinNums.Z) (G : point) (k : bytes) (c : bool) : result bytes :=
+  bind (compute_point p a n G k) (fun P =>
+  match P with Some (x, y) => pubkey x y c | None => Err TypeE end).
